@@ -1,122 +1,9 @@
 ----------------------------- MODULE BuildScript -----------------------------
 (***************************************************************************)
-(* C18: the build-script helper `Compile` as a small file protocol.        *)
-(*                                                                         *)
-(* State: the grammar file, the configured prefix, the destination file    *)
-(* (absent, or its content as a token sequence so that "starts with" is a  *)
-(* real prefix test), its modification counter, the last result.           *)
-(* Actions: EditGrammar, SetPrefix, DeleteDest, Run.                       *)
-(* `Run` is written from run_on_single_file line by line when              *)
-(* Shortcut = "impl"; with Shortcut = "intended" the up-to-date test is    *)
-(* the one the property states (destination already current).              *)
-(*                                                                         *)
-(* File content: <<H(g)>> \o prefix \o <<NL, C(g)>>  (header, prefix,      *)
-(* code).  rustfmt keeps the header (comments), may rewrite the prefix     *)
-(* (Fmt) and formats the code (CF).                                        *)
+(* C18: the build protocol (module BuildProtocol) instantiated for TLC:    *)
+(* every maximal history is printed for replay against the real Compile.   *)
 (***************************************************************************)
-EXTENDS Naturals, Sequences, TLC, Json
-
-CONSTANTS Shortcut,     \* "impl" | "intended"
-          Format,       \* BOOLEAN: .format() configured
-          Depth         \* length of the histories explored
-
-Valid   == {"g1", "g2"}
-Sources == Valid \cup {"bad_syn", "bad_sem", "missing"}
-\* prefixes as token sequences; "pq" has "p" as a proper prefix; "u" is not rustfmt-stable
-Prefixes == {<<>>, <<"p">>, <<"p", "q">>} \cup (IF Format THEN {<<"u">>} ELSE {})
-
-VARIABLES src, prefix, dest, mt, last, h
-vars == <<src, prefix, dest, mt, last, h>>
-
-Absent == <<"absent">>
-H(g) == "H:" \o g
-C(g) == "C:" \o g
-FmtTok(t) == IF t = "u" THEN "U" ELSE t
-FmtPrefix(p) == [i \in 1..Len(p) |-> FmtTok(p[i])]
-Written(g, p)   == <<H(g)>> \o p \o <<"NL", C(g)>>
-Formatted(g, p) == <<H(g)>> \o FmtPrefix(p) \o <<"NL", "F" \o C(g)>>
-\* what the destination must be after a successful run
-Compose(g, p) == IF Format THEN Formatted(g, p) ELSE Written(g, p)
-
-StartsWith(s, t) == Len(t) <= Len(s) /\ SubSeq(s, 1, Len(t)) = t
-
-Init ==
-  /\ src \in {"g1", "missing"}
-  /\ prefix = <<>>
-  /\ dest = Absent
-  /\ mt = 0
-  /\ last = "none"
-  /\ h = <<[a |-> "init", g |-> src]>>
-
-Open == Len(h) <= Depth
-
-EditGrammar(g) ==
-  /\ Open /\ g # src
-  /\ src' = g
-  /\ h' = Append(h, [a |-> "edit", g |-> g])
-  /\ UNCHANGED <<prefix, dest, mt, last>>
-
-SetPrefix(p) ==
-  /\ Open /\ p # prefix
-  /\ prefix' = p
-  /\ h' = Append(h, [a |-> "prefix", p |-> p])
-  /\ UNCHANGED <<src, dest, mt, last>>
-
-DeleteDest ==
-  /\ Open /\ dest # Absent
-  /\ dest' = Absent
-  /\ h' = Append(h, [a |-> "delete"])
-  /\ UNCHANGED <<src, prefix, mt, last>>
-
-\* the up-to-date test
-UpToDate ==
-  /\ dest # Absent
-  /\ IF Shortcut = "impl"
-     THEN StartsWith(dest, <<H(src)>> \o prefix)    \* header + prefix read back from the file
-     ELSE dest = Compose(src, prefix)               \* already produced from the same grammar, prefix, library
-
-Run ==
-  /\ Open
-  /\ h' = Append(h, [a |-> "run"])
-  /\ IF src = "missing"                     \* fs::read_to_string fails
-     THEN last' = "err" /\ UNCHANGED <<dest, mt>>
-     ELSE IF UpToDate
-     THEN last' = "ok" /\ UNCHANGED <<dest, mt>>
-     ELSE IF src \in {"bad_syn", "bad_sem"} \* parse error / generate_code error
-     THEN last' = "err" /\ UNCHANGED <<dest, mt>>
-     ELSE /\ dest' = Compose(src, prefix)   \* fs::write, then rustfmt
-          /\ mt' = mt + 1
-          /\ last' = "ok"
-  /\ UNCHANGED <<src, prefix>>
-
-Next ==
-  \/ \E g \in Sources : EditGrammar(g)
-  \/ \E p \in Prefixes : SetPrefix(p)
-  \/ DeleteDest
-  \/ Run
-
-Spec == Init /\ [][Next]_vars
-
----------------------------------------------------------------------------
-JustRan == h # <<>> /\ h[Len(h)].a = "run"
-
-\* after a successful run the destination is the compilation of the grammar as it is now
-Fresh == (JustRan /\ last = "ok") => dest = Compose(src, prefix)
-
-\* a destination already produced from the same grammar, prefix and library is left untouched
-Untouched == [][(Run /\ dest = Compose(src, prefix)) => mt' = mt]_vars
-
-\* a failing run returns an error and leaves an existing destination exactly as it was
-FailSafe == [][(Run /\ last' = "err") => dest' = dest]_vars
-Answers  == JustRan => last \in {"ok", "err"}
-\* the two known deviations of the implemented shortcut, stated as conditions on the state
-\* before the run (for the implementation-shaped configuration)
-StaleByPrefix(d, g, p) == d # Absent /\ d # Compose(g, p) /\ StartsWith(d, <<H(g)>> \o p)
-FreshExceptKnown ==
-  (JustRan /\ last = "ok" /\ dest # Compose(src, prefix)) => StaleByPrefix(dest, src, prefix)
-\* ... and a prefix rustfmt rewrites defeats the test, so a current destination is rewritten
-UntouchedExceptKnown ==
-  [][(Run /\ dest = Compose(src, prefix) /\ FmtPrefix(prefix) = prefix) => mt' = mt]_vars
+EXTENDS BuildProtocol, TLC, Json
 
 \* the history of every maximal behaviour, for replay against the real Compile
 Replay == (Len(h) = Depth + 1) => PrintT(<<"OUT", ToJson([h |-> h, format |-> Format])>>)
